@@ -151,6 +151,15 @@ def index_space(ctx):
             if isinstance(a, ast.Assign) and U(a.targets[0]) in ('self.values_function', 'self.keys_object'):
                 bound[U(a.targets[0]).split('.')[1]] = a.value
         if len(bound) < 2:
+            # set through a helper of the class (self.configure(n, keys, fn))
+            for e in ctx.G.callees(init):
+                if e.target is None or e.target.cls is None or e.kind != 'direct':
+                    continue
+                for st_ in ast.walk(e.target.node):
+                    if isinstance(st_, ast.Assign) and U(st_.targets[0]) in ('self.values_function', 'self.keys_object') \
+                            and isinstance(st_.value, ast.Name) and st_.value.id in e.binding:
+                        bound.setdefault(U(st_.targets[0]).split('.')[1], e.binding[st_.value.id])
+        if len(bound) < 2:
             continue      # intermediate class
         vf = bound['values_function']
         m = reader.find_method(vf.attr) if isinstance(vf, ast.Attribute) else None
@@ -427,7 +436,13 @@ class _SliceEval:
         while isinstance(e, ast.Call) and U(e.func) in ('int', 'np.int64', 'np.int32') and len(e.args) == 1:
             e = e.args[0]
         if isinstance(e, ast.Constant):
+            if isinstance(e.value, bool):
+                return ('BOOL', e.value)
             return 'NONE' if e.value is None else ('CONST', e.value)
+        if isinstance(e, ast.Call) and isinstance(e.func, ast.IfExp):
+            # (min if up else max)(keys): the function is chosen by a decidable test
+            chosen = e.func.body if self.truth(e.func.test) else e.func.orelse
+            return self.ev(ast.copy_location(ast.Call(func=chosen, args=e.args, keywords=e.keywords), e))
         if isinstance(e, ast.Name):
             if e.id in self.env:
                 return self.env[e.id]
@@ -664,6 +679,21 @@ def delegation(ctx):
             if isinstance(r, ast.Call) and U(r.func) == 'self.values_function' and r.args and \
                     U(r.args[0]).replace(' ', '') in ('len(self)+subscript', 'subscript+len(self)'):
                 ok = True
+    if not ok:
+        # by path facts: wherever the ordinal is negative when values_function is called, the argument is len(self) + ordinal
+        from ..facts import FactMap as _FM, expand_defs as _xd
+        fm_ = _FM(gi.node)
+        par = [p_ for p_ in gi.params if p_ != 'self'][0]
+        seen_neg, all_ok = False, True
+        for r in ast.walk(gi.node):
+            if isinstance(r, ast.Call) and U(r.func) == 'self.values_function' and r.args:
+                for facts in (fm_.paths_at(r) or []):
+                    if ('<', par, '0') in facts:
+                        seen_neg = True
+                        a_ = _xd(U(r.args[0]), facts).replace(' ', '')
+                        if a_ not in ('len(self)+%s' % par, '%s+len(self)' % par):
+                            all_ok = False
+        ok = seen_neg and all_ok
     sl = [c for c in ast.walk(gi.node) if isinstance(c, ast.Call) and U(c.func).endswith('.indices') and
           U(c.args[0]) == 'len(self)']
     if ok and sl:
